@@ -1,18 +1,1198 @@
-//! C13 — not implemented yet.
+//! C13 — written line programs read back to exactly the rows that were generated.
+//!
+//! Oracle: the generated row list itself (addresses computed by the harness from the
+//! sequence base address and the address offsets), the harness's own de-duplicating model
+//! of the directory / file tables, and `gimli::read` as the reader (checked by C04).
 
+use crate::asm::Enc;
+use crate::model::line::{FileM, Row, AV};
+use crate::props::c04::{av_of, file_of, row_of};
 use crate::props::PropInfo;
-use crate::rt::Ctx;
+use crate::rt::{hex, Ctx, Rng};
+use gimli::write as w;
+use gimli::{DebugLineOffset, EndianSlice, LineEncoding, RunTimeEndian};
+use serde_json::{json, Value};
+
+type Rd<'a> = EndianSlice<'a, RunTimeEndian>;
 
 pub fn info() -> PropInfo {
     PropInfo {
         id: "C13",
         level: "exploration",
-        rule: "",
-        assumptions: &[],
-        exhaustive_subspaces: &[],
-        must_observe: &[],
+        rule: "Streams: `grid` = for each LineEncoding tuple (all 24 valid (line_base, line_range) pairs of line_base {-128,-5,-3,-1,0} x line_range {1,2,12,14,127,128,255}, rotated over min_inst_len {1,2,4} x max_ops {1,2,4}, versions 2-5, both formats, address sizes 4/8, both byte orders; 12 tuples in the quick tier, 48 in the thorough tier) the complete grid (line advance -40..40 quick / -300..300 thorough) x (operation advance 0..300 quick / 0..600 thorough), each pair written as its own sequence (set_address, base row with op_index alternating between 0 and max_ops-1, advanced row, end_sequence) through begin_sequence/row()/generate_row/end_sequence, serialised with LineProgram::write and read back with read::DebugLine; every row is compared in every field. `rand` = random programs with 1-4 sequences, 0-12 rows each, every row field varied, row() driven either by assigning every field or lazily by assigning only the fields that differ from its documented state (boundary values for line/column/isa/discriminator, files from a table with duplicate names in different directories and duplicate add_file/add_directory calls with and without FileInfo), sequence starts through begin_sequence(Some/None), set_address or implicitly, DW_LNE_set_address in the middle of a sequence, end_sequence with an op_index, address offsets up to the top of the address space, line_range up to 255, max_ops up to 255; timestamps/sizes/MD5/embedded source with all four file_has_* flags, strings inline / .debug_line_str / .debug_str (independently for directories, files and sources), versions 2-5 x formats x address sizes 1/2/4/8 x byte orders; written standalone (LineProgram::write, optionally as the second program of the section), inside a unit (write::Dwarf unit with DW_AT_stmt_list, read through read::Dwarf::unit) or through write::Dwarf::line_programs; rows, header parameters, include_directories, file_names and file()/directory() lookups (strings resolved through Dwarf::attr_line_string) are compared with what was generated. `reject` = configurations the writer cannot represent (max_ops > 1 before version 4, string references before version 5): Err expected. A case is non-trivial when at least one row is generated; distinct by digest of the generated program description (grid: bijection with the index).",
+        assumptions: &[
+            "row fields of the end_sequence row other than address and op_index are not compared (DWARF: not meaningful; the writer API only takes address_offset and op_index for it)",
+            "rows following a set_address in the middle of a sequence continue at address + (address_offset - previous row's address_offset), as documented for ConvertLineProgram",
+            "generated addresses stay below the tombstone minimum 2^(8*size)-2 and never decrease within a sequence; address offsets are multiples of min_inst_len; op_index < max_ops; (address, op_index) never decreases within a sequence (documented preconditions)",
+            "line numbers are below 2^63 (the writer computes the line advance in i64)",
+            "per-row advances go up to the largest representable operation advance (u64::MAX / max_ops - 1) and DW_LNE_set_address is generated at any op_index (two earlier defects there are fixed in /repo: c27c80d, f6d3e34)",
+            "timestamp/size are compared only when emitted (always for version <= 4, per file_has_* flag in version 5); MD5/source only in version 5 with their flag; a missing source reads back as an empty string",
+            "v5: one string form for all directories, one for all file names, one for all sources (the writer reports LineStringFormMismatch otherwise)",
+        ],
+        exhaustive_subspaces: &[
+            "(line advance -40..40) x (operation advance 0..300) per LineEncoding tuple (quick); -300..300 x 0..600 (thorough)",
+        ],
+        must_observe: &[
+            "grid.pairs", "rand.rows", "rand.sequences", "mode.standalone", "mode.second_program", "mode.unit", "mode.dwarf_line_programs", "version.2", "version.3", "version.4", "version.5", "form.inline", "form.line_strp", "form.strp",
+            "flag.timestamp", "flag.size", "flag.md5", "flag.source", "start.begin_some", "start.begin_none", "start.set_address", "start.implicit", "mid.set_address", "line_range.ge128", "max_ops.gt1", "op_index.nonzero",
+            "dup.file", "dup.dir", "reject.need_version4", "reject.need_version5", "end.op_index", "advance.big",
+        ],
         run,
     }
 }
 
-pub fn run(_ctx: &mut Ctx) {}
+// ---------------------------------------------------------------- case description
+
+#[derive(Clone, Copy, Debug, PartialEq, Eq)]
+enum SForm {
+    Inline,
+    LineStrp,
+    Strp,
+}
+
+#[derive(Clone, Debug, PartialEq, Eq, Default)]
+struct InfoSpec {
+    timestamp: u64,
+    size: u64,
+    md5: [u8; 16],
+    source: Option<Vec<u8>>,
+}
+
+#[derive(Clone, Debug)]
+enum Add {
+    Dir(Vec<u8>),
+    /// name, directory slot, info
+    File(Vec<u8>, usize, Option<InfoSpec>),
+}
+
+#[derive(Clone, Copy, Debug, PartialEq, Eq, Default)]
+struct GRow {
+    off: u64,
+    op_index: u64,
+    /// file slot
+    file: usize,
+    line: u64,
+    column: u64,
+    disc: u64,
+    is_stmt: bool,
+    bb: bool,
+    pe: bool,
+    eb: bool,
+    isa: u64,
+}
+
+#[derive(Clone, Debug)]
+enum Act {
+    Begin(Option<u64>),
+    SetAddress(u64),
+    Row(GRow),
+    End { off: u64, op_index: u64 },
+}
+
+#[derive(Clone, Debug)]
+struct Spec {
+    enc: Enc,
+    le: LineEncoding,
+    dir_form: SForm,
+    file_form: SForm,
+    src_form: SForm,
+    working_dir: Vec<u8>,
+    source_dir: Option<Vec<u8>>,
+    source_file: Vec<u8>,
+    source_info: Option<InfoSpec>,
+    has: (bool, bool, bool, bool),
+    adds: Vec<Add>,
+    acts: Vec<Act>,
+}
+
+/// The harness's own model of the tables: find-or-insert keyed by bytes / (bytes, dir).
+#[derive(Clone, Debug, Default)]
+struct TableModel {
+    dirs: Vec<Vec<u8>>,
+    files: Vec<(Vec<u8>, usize, InfoSpec)>,
+    dup_dir: bool,
+    dup_file: bool,
+}
+
+impl TableModel {
+    fn add_dir(&mut self, d: &[u8]) -> usize {
+        if let Some(p) = self.dirs.iter().position(|x| x == d) {
+            self.dup_dir = true;
+            return p;
+        }
+        self.dirs.push(d.to_vec());
+        self.dirs.len() - 1
+    }
+    fn add_file(&mut self, n: &[u8], dir: usize, info: &Option<InfoSpec>) -> usize {
+        if let Some(p) = self.files.iter().position(|x| x.0 == n && x.1 == dir) {
+            self.dup_file = true;
+            if let Some(i) = info {
+                self.files[p].2 = i.clone();
+            }
+            return p;
+        }
+        self.files.push((n.to_vec(), dir, info.clone().unwrap_or_default()));
+        self.files.len() - 1
+    }
+    fn of(s: &Spec) -> TableModel {
+        let mut t = TableModel::default();
+        t.add_dir(&s.working_dir);
+        if s.enc.version >= 5 {
+            let d = match &s.source_dir {
+                Some(d) => t.add_dir(d),
+                None => 0,
+            };
+            t.add_file(&s.source_file, d, &s.source_info);
+        }
+        t.dup_dir = false;
+        t.dup_file = false;
+        for a in &s.adds {
+            match a {
+                Add::Dir(d) => {
+                    t.add_dir(d);
+                }
+                Add::File(n, d, i) => {
+                    t.add_file(n, *d, i);
+                }
+            }
+        }
+        t
+    }
+}
+
+/// Expected rows: (row, is_end).  For end rows only address/op_index are meaningful.
+fn expected_rows(s: &Spec) -> Vec<(Row, bool)> {
+    let v5 = s.enc.version >= 5;
+    let mut out = vec![];
+    let mut cur: u64 = 0;
+    let mut prev_off: u64 = 0;
+    for a in &s.acts {
+        match a {
+            Act::Begin(Some(x)) | Act::SetAddress(x) => cur = *x,
+            Act::Begin(None) => {}
+            Act::Row(g) => {
+                cur = cur.wrapping_add(g.off.wrapping_sub(prev_off));
+                prev_off = g.off;
+                out.push((
+                    Row {
+                        address: cur,
+                        op_index: g.op_index,
+                        file: if v5 { g.file as u64 } else { g.file as u64 + 1 },
+                        line: g.line,
+                        column: g.column,
+                        is_stmt: g.is_stmt,
+                        basic_block: g.bb,
+                        end_sequence: false,
+                        prologue_end: g.pe,
+                        epilogue_begin: g.eb,
+                        isa: g.isa,
+                        discriminator: g.disc,
+                    },
+                    false,
+                ));
+            }
+            Act::End { off, op_index } => {
+                cur = cur.wrapping_add(off.wrapping_sub(prev_off));
+                out.push((Row { address: cur, op_index: *op_index, end_sequence: true, ..Row::default() }, true));
+                cur = 0;
+                prev_off = 0;
+            }
+        }
+    }
+    out
+}
+
+// ---------------------------------------------------------------- driving the writer
+
+struct Tables<'a> {
+    line_strings: &'a mut w::LineStringTable,
+    strings: &'a mut w::StringTable,
+}
+
+fn lstr(form: SForm, b: &[u8], t: &mut Tables<'_>) -> w::LineString {
+    match form {
+        SForm::Inline => w::LineString::String(b.to_vec()),
+        SForm::LineStrp => w::LineString::LineStringRef(t.line_strings.add(b.to_vec())),
+        SForm::Strp => w::LineString::StringRef(t.strings.add(b.to_vec())),
+    }
+}
+
+fn info_of(i: &InfoSpec, src_form: SForm, t: &mut Tables<'_>) -> w::FileInfo {
+    w::FileInfo { timestamp: i.timestamp, size: i.size, md5: i.md5, source: i.source.as_ref().map(|s| lstr(src_form, s, t)) }
+}
+
+/// Build the `write::LineProgram` for `s`.  Returns the program and whether the ids handed
+/// out by add_file/add_directory were consistent with the table model.
+fn build(s: &Spec, t: &mut Tables<'_>) -> (w::LineProgram, Result<(), String>) {
+    let tm0 = TableModel::default();
+    let _ = tm0;
+    let wd = lstr(s.dir_form, &s.working_dir, t);
+    let sd = s.source_dir.as_ref().map(|d| lstr(s.dir_form, d, t));
+    let sf = lstr(s.file_form, &s.source_file, t);
+    let si = s.source_info.as_ref().map(|i| info_of(i, s.src_form, t));
+    let mut p = w::LineProgram::new(s.enc.encoding(), s.le, wd, sd, sf, si);
+    p.file_has_timestamp = s.has.0;
+    p.file_has_size = s.has.1;
+    p.file_has_md5 = s.has.2;
+    p.file_has_source = s.has.3;
+    // replay the adds against both the writer and the model
+    let mut tm = TableModel::default();
+    tm.add_dir(&s.working_dir);
+    let mut dir_ids: Vec<w::DirectoryId> = vec![p.default_directory()];
+    let mut file_ids: Vec<w::FileId> = vec![];
+    let mut consistent: Result<(), String> = Ok(());
+    if s.enc.version >= 5 {
+        let d = match &s.source_dir {
+            Some(d) => {
+                let slot = tm.add_dir(d);
+                let id = p.add_directory(lstr(s.dir_form, d, t));
+                if slot == dir_ids.len() {
+                    dir_ids.push(id);
+                } else if dir_ids[slot] != id {
+                    consistent = Err("add_directory(source_dir) returned a different id than LineProgram::new used".into());
+                }
+                slot
+            }
+            None => 0,
+        };
+        tm.add_file(&s.source_file, d, &s.source_info);
+        // re-adding the primary file without info must hand back the existing entry
+        let id = p.add_file(lstr(s.file_form, &s.source_file, t), dir_ids[d], None);
+        file_ids.push(id);
+    }
+    for a in &s.adds {
+        match a {
+            Add::Dir(d) => {
+                let slot = tm.add_dir(d);
+                let id = p.add_directory(lstr(s.dir_form, d, t));
+                if slot == dir_ids.len() {
+                    dir_ids.push(id);
+                } else if dir_ids[slot] != id {
+                    consistent = Err(format!("add_directory returned a new id for an existing directory (slot {slot})"));
+                }
+            }
+            Add::File(n, d, i) => {
+                let slot = tm.add_file(n, *d, i);
+                let info = i.as_ref().map(|i| info_of(i, s.src_form, t));
+                let id = p.add_file(lstr(s.file_form, n, t), dir_ids[*d], info);
+                if slot == file_ids.len() {
+                    file_ids.push(id);
+                } else if file_ids[slot] != id {
+                    consistent = Err(format!("add_file returned a new id for an existing (name, directory) (slot {slot})"));
+                }
+            }
+        }
+    }
+    // every other program drives `row()` lazily (see below); the choice is a function of the
+    // case description only
+    let lazy = (s.acts.len() + s.adds.len()) % 2 == 1;
+    let initial = GRow { line: 1, is_stmt: s.le.default_is_stmt, ..GRow::default() };
+    let mut shadow = initial;
+    for a in &s.acts {
+        match a {
+            Act::Begin(x) => p.begin_sequence(x.map(w::Address::Constant)),
+            Act::SetAddress(x) => p.set_address(w::Address::Constant(*x)),
+            Act::Row(g) => {
+                let r = p.row();
+                r.file = file_ids[g.file];
+                if lazy {
+                    // rely on the documented state of `row()`: generate_row clears
+                    // discriminator / basic_block / prologue_end / epilogue_begin and keeps the
+                    // rest, end_sequence resets everything; assign only what differs from it
+                    if g.off != shadow.off {
+                        r.address_offset = g.off;
+                    }
+                    if g.op_index != shadow.op_index {
+                        r.op_index = g.op_index;
+                    }
+                    if g.line != shadow.line {
+                        r.line = g.line;
+                    }
+                    if g.column != shadow.column {
+                        r.column = g.column;
+                    }
+                    if g.disc != shadow.disc {
+                        r.discriminator = g.disc;
+                    }
+                    if g.is_stmt != shadow.is_stmt {
+                        r.is_statement = g.is_stmt;
+                    }
+                    if g.bb != shadow.bb {
+                        r.basic_block = g.bb;
+                    }
+                    if g.pe != shadow.pe {
+                        r.prologue_end = g.pe;
+                    }
+                    if g.eb != shadow.eb {
+                        r.epilogue_begin = g.eb;
+                    }
+                    if g.isa != shadow.isa {
+                        r.isa = g.isa;
+                    }
+                } else {
+                    r.address_offset = g.off;
+                    r.op_index = g.op_index;
+                    r.line = g.line;
+                    r.column = g.column;
+                    r.discriminator = g.disc;
+                    r.is_statement = g.is_stmt;
+                    r.basic_block = g.bb;
+                    r.prologue_end = g.pe;
+                    r.epilogue_begin = g.eb;
+                    r.isa = g.isa;
+                }
+                p.generate_row();
+                shadow = GRow { disc: 0, bb: false, pe: false, eb: false, ..*g };
+            }
+            Act::End { off, op_index } => {
+                p.row().op_index = *op_index;
+                p.end_sequence(*off);
+                shadow = initial;
+            }
+        }
+    }
+    (p, consistent)
+}
+
+#[derive(Clone, Copy, Debug, PartialEq, Eq)]
+enum Mode {
+    Standalone,
+    Second,
+    Unit,
+    DwarfPrograms,
+}
+
+#[derive(Default, Debug)]
+struct Out {
+    /// None = ok
+    write: Option<String>,
+    ids: Option<String>,
+    line: Vec<u8>,
+    line_str: Vec<u8>,
+    str_: Vec<u8>,
+    info: Vec<u8>,
+    abbrev: Vec<u8>,
+    offset: usize,
+}
+
+fn decoy_spec(s: &Spec) -> Spec {
+    let mut d = s.clone();
+    d.acts = vec![Act::Begin(Some(0x10)), Act::Row(GRow { line: 3, is_stmt: s.le.default_is_stmt, ..GRow::default() }), Act::End { off: s.le.minimum_instruction_length as u64, op_index: 0 }];
+    d.adds = vec![Add::File(b"decoy.c".to_vec(), 0, None)];
+    d
+}
+
+fn write_case(s: &Spec, mode: Mode) -> Out {
+    let endian = s.enc.endian();
+    let mut o = Out::default();
+    match mode {
+        Mode::Standalone | Mode::Second => {
+            let mut ls = w::LineStringTable::default();
+            let mut st = w::StringTable::default();
+            let mut dl = w::DebugLine::from(w::EndianVec::new(endian));
+            if mode == Mode::Second {
+                let (p0, _) = build(&decoy_spec(s), &mut Tables { line_strings: &mut ls, strings: &mut st });
+                if let Err(e) = p0.write(&mut dl, s.enc.encoding(), &mut ls, &mut st) {
+                    o.write = Some(format!("decoy: {e:?}"));
+                    return o;
+                }
+            }
+            let (p, ids) = build(s, &mut Tables { line_strings: &mut ls, strings: &mut st });
+            o.ids = ids.err();
+            match p.write(&mut dl, s.enc.encoding(), &mut ls, &mut st) {
+                Ok(off) => o.offset = off.0,
+                Err(e) => {
+                    o.write = Some(format!("{e:?}"));
+                    return o;
+                }
+            }
+            let mut dls = w::DebugLineStr::from(w::EndianVec::new(endian));
+            let mut ds = w::DebugStr::from(w::EndianVec::new(endian));
+            if let Err(e) = ls.write(&mut dls).and_then(|_| st.write(&mut ds)) {
+                o.write = Some(format!("string tables: {e:?}"));
+                return o;
+            }
+            o.line = dl.slice().to_vec();
+            o.line_str = dls.slice().to_vec();
+            o.str_ = ds.slice().to_vec();
+        }
+        Mode::Unit | Mode::DwarfPrograms => {
+            let mut dwarf = w::Dwarf::new();
+            if mode == Mode::Unit {
+                let (p, ids) = build(s, &mut Tables { line_strings: &mut dwarf.line_strings, strings: &mut dwarf.strings });
+                o.ids = ids.err();
+                let id = dwarf.units.add(w::Unit::new(s.enc.encoding(), p));
+                let unit = dwarf.units.get_mut(id);
+                let root = unit.root();
+                unit.get_mut(root).set(gimli::DW_AT_name, w::AttributeValue::String(s.source_file.clone()));
+                unit.get_mut(root).set(gimli::DW_AT_comp_dir, w::AttributeValue::String(s.working_dir.clone()));
+            } else {
+                let (p0, _) = build(&decoy_spec(s), &mut Tables { line_strings: &mut dwarf.line_strings, strings: &mut dwarf.strings });
+                let (p, ids) = build(s, &mut Tables { line_strings: &mut dwarf.line_strings, strings: &mut dwarf.strings });
+                o.ids = ids.err();
+                dwarf.line_programs.push(p0);
+                dwarf.line_programs.push(p);
+            }
+            let mut sections = w::Sections::new(w::EndianVec::new(endian));
+            if let Err(e) = dwarf.write(&mut sections) {
+                o.write = Some(format!("{e:?}"));
+                return o;
+            }
+            o.line = sections.debug_line.slice().to_vec();
+            o.line_str = sections.debug_line_str.slice().to_vec();
+            o.str_ = sections.debug_str.slice().to_vec();
+            o.info = sections.debug_info.slice().to_vec();
+            o.abbrev = sections.debug_abbrev.slice().to_vec();
+        }
+    }
+    o
+}
+
+// ---------------------------------------------------------------- reading back
+
+#[derive(Default, Debug)]
+struct Back {
+    err: Option<String>,
+    params: (u16, bool, u8, u8, u8, bool, i8, u8),
+    rows: Vec<Row>,
+    dirs: Vec<Option<Vec<u8>>>,
+    /// (name, directory index, timestamp, size, md5, source)
+    files: Vec<(Option<Vec<u8>>, u64, u64, u64, [u8; 16], Option<Option<Vec<u8>>>)>,
+    has: (bool, bool, bool, bool),
+    /// directory(0) resolved
+    dir0: Option<Vec<u8>>,
+    /// for every distinct file index used by rows: (index, resolved name, resolved directory)
+    row_files: Vec<(u64, Option<Vec<u8>>, Option<Vec<u8>>)>,
+    raw_files: Vec<FileM>,
+    raw_dirs: Vec<AV>,
+}
+
+fn read_back(o: &Out, s: &Spec, mode: Mode) -> Back {
+    let endian = s.enc.endian();
+    let mut b = Back::default();
+    fn sec<'a>(v: &'a Vec<u8>, endian: RunTimeEndian) -> Rd<'a> {
+        EndianSlice::new(&v[..], endian)
+    }
+    let mut dwarf: gimli::Dwarf<Rd<'_>> = gimli::Dwarf::default();
+    dwarf.debug_str = gimli::DebugStr::from(sec(&o.str_, endian));
+    dwarf.debug_line_str = gimli::DebugLineStr::from(sec(&o.line_str, endian));
+    dwarf.debug_line = gimli::DebugLine::from(sec(&o.line, endian));
+    dwarf.debug_info = gimli::DebugInfo::from(sec(&o.info, endian));
+    dwarf.debug_abbrev = gimli::DebugAbbrev::from(sec(&o.abbrev, endian));
+    let program = match mode {
+        Mode::Unit => {
+            let mut units = dwarf.units();
+            let hdr = match units.next() {
+                Ok(Some(h)) => h,
+                other => {
+                    b.err = Some(format!("units().next(): {other:?}"));
+                    return b;
+                }
+            };
+            let unit = match dwarf.unit(hdr) {
+                Ok(u) => u,
+                Err(e) => {
+                    b.err = Some(format!("Dwarf::unit: {e:?}"));
+                    return b;
+                }
+            };
+            match unit.line_program.clone() {
+                Some(p) => p,
+                None => {
+                    b.err = Some("unit has no line program (DW_AT_stmt_list missing)".into());
+                    return b;
+                }
+            }
+        }
+        _ => {
+            let mut off = o.offset;
+            if mode == Mode::DwarfPrograms {
+                // the second program follows the decoy
+                match dwarf.debug_line.program(DebugLineOffset(0), s.enc.addr, None, None) {
+                    Ok(p0) => off = p0.header().unit_length() + if s.enc.fmt64 { 12 } else { 4 },
+                    Err(e) => {
+                        b.err = Some(format!("decoy program: {e:?}"));
+                        return b;
+                    }
+                }
+            }
+            match dwarf.debug_line.program(DebugLineOffset(off), s.enc.addr, None, None) {
+                Ok(p) => p,
+                Err(e) => {
+                    b.err = Some(format!("DebugLine::program: {e:?}"));
+                    return b;
+                }
+            }
+        }
+    };
+    let h = program.header().clone();
+    b.params = (h.version(), h.format() == gimli::Format::Dwarf64, h.address_size(), h.minimum_instruction_length(), h.maximum_operations_per_instruction(), h.default_is_stmt(), h.line_base(), h.line_range());
+    let res = |v: gimli::AttributeValue<Rd<'_>>| -> Option<Vec<u8>> { dwarf.attr_line_string(v).ok().map(|x| x.slice().to_vec()) };
+    for d in h.include_directories() {
+        b.dirs.push(res(d.clone()));
+        b.raw_dirs.push(av_of(d));
+    }
+    for f in h.file_names() {
+        b.files.push((res(f.path_name()), f.directory_index(), f.timestamp(), f.size(), *f.md5(), f.source().map(&res)));
+        b.raw_files.push(file_of(f));
+    }
+    b.has = (h.file_has_timestamp(), h.file_has_size(), h.file_has_md5(), h.file_has_source());
+    b.dir0 = h.directory(0).and_then(&res);
+    let mut rows = program.rows();
+    let cap = o.line.len() + 64;
+    let mut calls = 0;
+    loop {
+        calls += 1;
+        if calls > cap {
+            b.err = Some("harness: step cap".into());
+            break;
+        }
+        match rows.next_row() {
+            Ok(Some((hd, r))) => {
+                let row = row_of(r);
+                if !row.end_sequence && !b.row_files.iter().any(|x| x.0 == row.file) {
+                    let f = r.file(hd);
+                    b.row_files.push((row.file, f.and_then(|f| res(f.path_name())), f.and_then(|f| f.directory(hd)).and_then(&res)));
+                }
+                b.rows.push(row);
+            }
+            Ok(None) => break,
+            Err(e) => {
+                b.err = Some(format!("next_row: {e:?}"));
+                break;
+            }
+        }
+    }
+    b
+}
+
+// ---------------------------------------------------------------- comparison
+
+fn spec_json(s: &Spec, mode: Mode) -> Value {
+    json!({"enc": s.enc.label(), "mode": format!("{mode:?}"), "line_encoding": format!("{:?}", s.le), "forms": format!("{:?}/{:?}/{:?}", s.dir_form, s.file_form, s.src_form), "has": format!("{:?}", s.has),
+        "working_dir": hex(&s.working_dir), "source_dir": s.source_dir.as_ref().map(|d| hex(d)), "source_file": hex(&s.source_file), "source_info": format!("{:?}", s.source_info),
+        "adds": format!("{:?}", s.adds.iter().take(24).collect::<Vec<_>>()), "acts": format!("{:?}", s.acts.iter().take(40).collect::<Vec<_>>()), "n_acts": s.acts.len()})
+}
+
+/// Write, read back, compare.  Returns false if the case could not be evaluated.
+fn run_spec(ctx: &mut Ctx, stream: &str, s: &Spec, mode: Mode, tables: bool) -> bool {
+    ctx.eval();
+    let input0 = || spec_json(s, mode);
+    let Some(o) = ctx.guard(&format!("write.{stream}"), &input0, || write_case(s, mode)) else {
+        return false;
+    };
+    let input = || {
+        let mut v = spec_json(s, mode);
+        v["debug_line"] = json!(hex(&o.line));
+        v["offset"] = json!(o.offset);
+        v
+    };
+    if let Some(e) = &o.write {
+        ctx.fail(&format!("{stream}.write.err"), &format!("writer refused a valid program: {e}"), &input);
+        return false;
+    }
+    if let Some(e) = &o.ids {
+        ctx.fail(&format!("{stream}.ids"), e, &input);
+    }
+    let Some(b) = ctx.guard(&format!("read.{stream}"), &input, || read_back(&o, s, mode)) else {
+        return false;
+    };
+    if let Some(e) = &b.err {
+        ctx.fail(&format!("{stream}.readback.err"), &format!("reading the written program failed: {e}"), &input);
+        return false;
+    }
+    let want_params = (s.enc.version, s.enc.fmt64, s.enc.addr, s.le.minimum_instruction_length, s.le.maximum_operations_per_instruction, s.le.default_is_stmt, s.le.line_base, s.le.line_range);
+    ctx.check_eq(&format!("{stream}.header.params"), &want_params, &b.params, &input);
+    // ---- rows
+    let exp = expected_rows(s);
+    if exp.len() != b.rows.len() {
+        ctx.check_eq(&format!("{stream}.rows.count"), &exp.len(), &b.rows.len(), &input);
+    } else {
+        for (k, ((e, is_end), g)) in exp.iter().zip(b.rows.iter()).enumerate() {
+            let diff = if *is_end {
+                if e.address != g.address {
+                    Some("address")
+                } else if e.op_index != g.op_index {
+                    Some("op_index")
+                } else if !g.end_sequence {
+                    Some("end_sequence")
+                } else {
+                    None
+                }
+            } else {
+                e.first_diff(g)
+            };
+            if let Some(f) = diff {
+                let tag = if *is_end { "end_row" } else { "row" };
+                ctx.check_eq(&format!("{stream}.{tag}.{f}"), &format!("row {k}: {e:?}"), &format!("row {k}: {g:?}"), &input);
+                break;
+            }
+        }
+    }
+    if !tables {
+        return true;
+    }
+    // ---- tables
+    let tm = TableModel::of(s);
+    let v5 = s.enc.version >= 5;
+    let exp_dirs: Vec<Option<Vec<u8>>> = if v5 { tm.dirs.iter().map(|d| Some(d.clone())).collect() } else { tm.dirs.iter().skip(1).map(|d| Some(d.clone())).collect() };
+    ctx.check_eq(&format!("{stream}.tables.directories"), &exp_dirs, &b.dirs, &input);
+    let has = if v5 { s.has } else { (true, true, false, false) };
+    ctx.check_eq(&format!("{stream}.tables.file_has"), &has, &b.has, &input);
+    let exp_files: Vec<_> = tm
+        .files
+        .iter()
+        .map(|(n, d, i)| {
+            (
+                Some(n.clone()),
+                *d as u64,
+                if has.0 { i.timestamp } else { 0 },
+                if has.1 { i.size } else { 0 },
+                if has.2 { i.md5 } else { [0; 16] },
+                if has.3 { Some(Some(i.source.clone().unwrap_or_default())) } else { None },
+            )
+        })
+        .collect();
+    if exp_files != b.files {
+        let k = exp_files.iter().zip(b.files.iter()).position(|(a, b)| a != b).unwrap_or(exp_files.len().min(b.files.len()));
+        let field = match (exp_files.get(k), b.files.get(k)) {
+            (Some(a), Some(g)) => {
+                if a.0 != g.0 {
+                    "name"
+                } else if a.1 != g.1 {
+                    "directory"
+                } else if a.2 != g.2 {
+                    "timestamp"
+                } else if a.3 != g.3 {
+                    "size"
+                } else if a.4 != g.4 {
+                    "md5"
+                } else {
+                    "source"
+                }
+            }
+            _ => "count",
+        };
+        ctx.check_eq(&format!("{stream}.tables.files.{field}"), &format!("file {k}: {:?}", exp_files.get(k)), &format!("file {k}: {:?}", b.files.get(k)), &input);
+    }
+    // string forms as written
+    let form_ok = |v: &AV, f: SForm| matches!((v, f), (AV::Str(_), SForm::Inline) | (AV::LineStrp(_), SForm::LineStrp) | (AV::Strp(_), SForm::Strp));
+    if v5 {
+        if let Some(d) = b.raw_dirs.iter().find(|d| !form_ok(d, s.dir_form)) {
+            ctx.fail(&format!("{stream}.tables.dir_form"), &format!("directory read back as {d:?}, written with {:?}", s.dir_form), &input);
+        }
+        if let Some(f) = b.raw_files.iter().find(|f| !form_ok(&f.path, s.file_form)) {
+            ctx.fail(&format!("{stream}.tables.file_form"), &format!("file read back as {:?}, written with {:?}", f.path, s.file_form), &input);
+        }
+    }
+    // the file each row refers to, resolved through the header
+    for (idx, name, dir) in &b.row_files {
+        let slot = if v5 { *idx as usize } else { (*idx as usize).wrapping_sub(1) };
+        let want = tm.files.get(slot);
+        let want_name = want.map(|f| f.0.clone());
+        let want_dir = want.and_then(|f| if !v5 && f.1 == 0 { if mode == Mode::Unit { Some(s.working_dir.clone()) } else { None } } else { tm.dirs.get(f.1).cloned() });
+        ctx.check_eq(&format!("{stream}.row_file.name"), &want_name, name, &input);
+        ctx.check_eq(&format!("{stream}.row_file.directory"), &want_dir, dir, &input);
+    }
+    if mode == Mode::Unit || v5 {
+        ctx.check_eq(&format!("{stream}.tables.directory0"), &Some(s.working_dir.clone()), &b.dir0, &input);
+    }
+    true
+}
+
+// ---------------------------------------------------------------- generators
+
+fn gname(r: &mut Rng, allow_empty: bool) -> Vec<u8> {
+    if allow_empty && r.chance(1, 20) {
+        return vec![];
+    }
+    let n = 1 + r.usize(8);
+    (0..n).map(|_| if r.chance(1, 8) { 1 + (r.next() % 255) as u8 } else { b'a' + (r.next() % 26) as u8 }).collect()
+}
+
+fn ginfo(r: &mut Rng) -> InfoSpec {
+    let mut md5 = [0u8; 16];
+    for b in md5.iter_mut() {
+        *b = r.next() as u8;
+    }
+    InfoSpec {
+        timestamp: r.boundary(),
+        size: r.boundary(),
+        md5,
+        source: if r.chance(1, 2) {
+            let mut s = gname(r, false);
+            s.push(b'\n');
+            Some(s)
+        } else {
+            None
+        },
+    }
+}
+
+fn valid_pairs() -> Vec<(i8, u8)> {
+    let mut v = vec![];
+    for lb in [-128i16, -5, -3, -1, 0] {
+        for lr in [1i16, 2, 12, 14, 127, 128, 255] {
+            if lb + lr > 0 {
+                v.push((lb as i8, lr as u8));
+            }
+        }
+    }
+    v
+}
+
+fn gen_line_encoding(r: &mut Rng, version: u16) -> LineEncoding {
+    let (line_base, line_range) = if r.chance(2, 3) {
+        *r.pick(&valid_pairs())
+    } else {
+        let lb = -(r.below(129) as i16);
+        let lr = r.range((1 - lb) as u64, 255) as u8;
+        (lb as i8, lr)
+    };
+    LineEncoding {
+        minimum_instruction_length: if r.chance(3, 4) { *r.pick(&[1u8, 1, 2, 4]) } else { r.range(1, 255) as u8 },
+        maximum_operations_per_instruction: if version < 4 || r.chance(1, 2) {
+            1
+        } else if r.chance(3, 4) {
+            *r.pick(&[2u8, 3, 4, 8])
+        } else {
+            r.range(2, 255) as u8
+        },
+        default_is_stmt: r.bool(),
+        line_base,
+        line_range,
+    }
+}
+
+/// KNOWN GENUINE DEFECTS of the tree under test (reported to the coordinator, not repaired
+/// when this was written).  While they are open the generator stays just outside their
+/// trigger condition; set GV_C13_NOSKIP=1 to generate them (the check then reports them).
+///
+/// 1. write/line.rs LineProgram::generate_row: `special + op_advance * line_range` (and
+///    `special_op_advance * line_range`) overflow u64 when one row advances by
+///    >= 2^64 / line_range operations: debug build panics ("attempt to multiply with
+///    overflow"), release build wraps and the address advance is silently lost.
+/// 2. write/line.rs LineProgram::set_address in the middle of a sequence with
+///    maximum_operations_per_instruction > 1 and a non-zero op_index in the previous row:
+///    DW_LNE_set_address resets the reader's op_index to 0 but the writer keeps computing
+///    the operation advance from prev_row.op_index, so the next row reads back with the
+///    wrong op_index (and address).
+///
+/// Both were repaired in /repo (c27c80d, f6d3e34); the generator no longer avoids them.
+fn skip_known() -> bool {
+    false
+}
+
+/// Largest per-row advance (in units of min_inst_len) the generator uses.
+fn cap_units(le: &LineEncoding, big: bool) -> u64 {
+    let max_ops = le.maximum_operations_per_instruction as u64;
+    if !big {
+        (1u64 << 40) / max_ops
+    } else if skip_known() {
+        // op_advance <= units * max_ops + max_ops must keep 255 + op_advance * line_range inside u64
+        ((u64::MAX - 255) / le.line_range as u64).saturating_sub(max_ops) / max_ops
+    } else {
+        u64::MAX / max_ops - 1
+    }
+}
+
+/// `big`: allow per-row advances up to the largest operation advance that is representable.
+fn gen_spec(r: &mut Rng, enc: Enc, big: bool) -> Spec {
+    let mid_any = !skip_known();
+    let v5 = enc.version >= 5;
+    let le = gen_line_encoding(r, enc.version);
+    let forms = [SForm::Inline, SForm::LineStrp, SForm::Strp];
+    let (dir_form, file_form, src_form) = if v5 { (*r.pick(&forms), *r.pick(&forms), *r.pick(&forms)) } else { (SForm::Inline, SForm::Inline, SForm::Inline) };
+    let mut s = Spec {
+        enc,
+        le,
+        dir_form,
+        file_form,
+        src_form,
+        working_dir: gname(r, false),
+        source_dir: if r.chance(1, 2) { Some(gname(r, false)) } else { None },
+        source_file: gname(r, false),
+        source_info: if r.chance(1, 2) { Some(ginfo(r)) } else { None },
+        has: (r.bool(), r.bool(), r.bool(), r.bool()),
+        adds: vec![],
+        acts: vec![],
+    };
+    // ---- tables: names from a small pool so that duplicates happen
+    let pool: Vec<Vec<u8>> = (0..4).map(|_| gname(r, false)).collect();
+    let mut tm = TableModel::of(&s);
+    let n_adds = 1 + r.usize(8);
+    for _ in 0..n_adds {
+        if r.chance(1, 3) {
+            let d = if r.chance(1, 4) { s.working_dir.clone() } else if r.chance(1, 2) { r.pick(&pool).clone() } else { gname(r, false) };
+            tm.add_dir(&d);
+            s.adds.push(Add::Dir(d));
+        } else {
+            let n = if r.chance(1, 6) { s.source_file.clone() } else if r.chance(1, 2) { r.pick(&pool).clone() } else { gname(r, v5 && file_form != SForm::Inline) };
+            let d = r.usize(tm.dirs.len());
+            let i = if r.chance(1, 2) { Some(ginfo(r)) } else { None };
+            tm.add_file(&n, d, &i);
+            s.adds.push(Add::File(n, d, i));
+        }
+    }
+    if tm.files.is_empty() {
+        let n = gname(r, false);
+        tm.add_file(&n, 0, &None);
+        s.adds.push(Add::File(n, 0, None));
+    }
+    let nfiles = tm.files.len();
+    // ---- rows
+    let mask = enc.addr_mask();
+    let top = mask.wrapping_sub(2); // highest non-tombstone address
+    let min = le.minimum_instruction_length as u64;
+    let max_ops = le.maximum_operations_per_instruction as u64;
+    let nseq = 1 + r.usize(4);
+    for _ in 0..nseq {
+        let base = match r.below(6) {
+            0 => 0,
+            1 => r.below(0x100) & mask,
+            2 => (top / 2) & mask,
+            3 => top.saturating_sub(r.below(64 * min)),
+            _ => r.boundary() & mask,
+        }
+        .min(top);
+        let base = match r.below(4) {
+            0 => {
+                s.acts.push(Act::Begin(Some(base)));
+                base
+            }
+            1 => {
+                s.acts.push(Act::Begin(None));
+                0
+            }
+            2 => {
+                s.acts.push(Act::SetAddress(base));
+                base
+            }
+            _ => 0,
+        };
+        // budget in units of min_inst_len
+        let mut cur = base; // current address
+        let mut off: u64 = 0;
+        let mut k: u64 = 0; // op_index
+        let mut g = GRow { file: if v5 { 1.min(nfiles - 1) } else { 0 }, line: 1, is_stmt: le.default_is_stmt, ..GRow::default() };
+        let nrows = r.usize(13);
+        let cap_units: u64 = cap_units(&le, big);
+        for _ in 0..nrows {
+            if r.chance(1, if mid_any { 3 } else { 12 }) && (k == 0 || mid_any) {
+                // set_address in the middle of the sequence
+                let room = top - cur;
+                let gap = match r.below(3) {
+                    0 => 0,
+                    1 => r.below(0x40).min(room),
+                    _ => (r.boundary() % (room / 2 + 1)).min(room),
+                };
+                cur += gap;
+                s.acts.push(Act::SetAddress(cur));
+            }
+            let room_units = ((top - cur) / min).min(cap_units);
+            let adv_units = match r.below(10) {
+                0..=2 => 0,
+                3..=6 => r.below(4).min(room_units),
+                7 => r.below(300).min(room_units),
+                8 => room_units / 2,
+                _ => (r.boundary() % (room_units + 1)).min(room_units),
+            };
+            let new_k = if max_ops == 1 {
+                0
+            } else if adv_units == 0 {
+                r.range(k, max_ops - 1)
+            } else {
+                r.below(max_ops)
+            };
+            off += adv_units * min;
+            cur += adv_units * min;
+            k = new_k;
+            g.off = off;
+            g.op_index = k;
+            // line: small moves, boundary jumps
+            g.line = match r.below(12) {
+                0..=2 => g.line,
+                3..=6 => (g.line as i128 + r.irange(-6, 14) as i128).clamp(0, i64::MAX as i128) as u64,
+                7 => (g.line as i128 + r.irange(-300, 300) as i128).clamp(0, i64::MAX as i128) as u64,
+                8 => 0,
+                9 => i64::MAX as u64,
+                10 => r.boundary() & (i64::MAX as u64),
+                _ => r.below(100_000),
+            };
+            if r.chance(1, 3) {
+                g.file = r.usize(nfiles);
+            }
+            if r.chance(1, 3) {
+                g.column = if r.chance(1, 4) { r.boundary() } else { r.below(200) };
+            }
+            if r.chance(1, 5) {
+                g.is_stmt = !g.is_stmt;
+            }
+            if r.chance(1, 6) {
+                g.isa = if r.chance(1, 3) { r.boundary() } else { r.below(5) };
+            }
+            g.disc = if r.chance(1, 4) { if r.chance(1, 4) { r.boundary() } else { 1 + r.below(20) } } else { 0 };
+            g.bb = r.chance(1, 5);
+            g.pe = r.chance(1, 6);
+            g.eb = r.chance(1, 6);
+            s.acts.push(Act::Row(g));
+        }
+        let room_units = ((top - cur) / min).min(cap_units);
+        let adv_units = match r.below(4) {
+            0 => 0,
+            1 => 1.min(room_units),
+            2 => r.below(50).min(room_units),
+            _ => (r.boundary() % (room_units + 1)).min(room_units),
+        };
+        let end_k = if max_ops == 1 {
+            0
+        } else if adv_units == 0 {
+            r.range(k, max_ops - 1)
+        } else if r.chance(1, 2) {
+            0
+        } else {
+            r.below(max_ops)
+        };
+        s.acts.push(Act::End { off: off + adv_units * min, op_index: end_k });
+    }
+    s
+}
+
+fn obs_spec(ctx: &mut Ctx, s: &Spec, mode: Mode) {
+    ctx.obs(&format!("version.{}", s.enc.version));
+    ctx.obs(match mode {
+        Mode::Standalone => "mode.standalone",
+        Mode::Second => "mode.second_program",
+        Mode::Unit => "mode.unit",
+        Mode::DwarfPrograms => "mode.dwarf_line_programs",
+    });
+    for f in [s.dir_form, s.file_form, s.src_form] {
+        ctx.obs(match f {
+            SForm::Inline => "form.inline",
+            SForm::LineStrp => "form.line_strp",
+            SForm::Strp => "form.strp",
+        });
+    }
+    if s.enc.version >= 5 {
+        if s.has.0 {
+            ctx.obs("flag.timestamp");
+        }
+        if s.has.1 {
+            ctx.obs("flag.size");
+        }
+        if s.has.2 {
+            ctx.obs("flag.md5");
+        }
+        if s.has.3 {
+            ctx.obs("flag.source");
+        }
+    }
+    if s.le.line_range >= 128 {
+        ctx.obs("line_range.ge128");
+    }
+    if s.le.maximum_operations_per_instruction > 1 {
+        ctx.obs("max_ops.gt1");
+    }
+    let tm = TableModel::of(s);
+    if tm.dup_dir {
+        ctx.obs("dup.dir");
+    }
+    if tm.dup_file {
+        ctx.obs("dup.file");
+    }
+    let mut in_seq = false;
+    let mut rows_in_seq = 0;
+    for a in &s.acts {
+        match a {
+            Act::Begin(Some(_)) => {
+                ctx.obs("start.begin_some");
+                in_seq = true;
+            }
+            Act::Begin(None) => {
+                ctx.obs("start.begin_none");
+                in_seq = true;
+            }
+            Act::SetAddress(_) => {
+                if !in_seq {
+                    ctx.obs("start.set_address");
+                } else if rows_in_seq > 0 {
+                    ctx.obs("mid.set_address");
+                }
+                in_seq = true;
+            }
+            Act::Row(g) => {
+                if !in_seq {
+                    ctx.obs("start.implicit");
+                }
+                in_seq = true;
+                rows_in_seq += 1;
+                ctx.obs("rand.rows");
+                if g.op_index != 0 {
+                    ctx.obs("op_index.nonzero");
+                }
+            }
+            Act::End { op_index, .. } => {
+                if !in_seq {
+                    ctx.obs("start.implicit");
+                }
+                ctx.obs("rand.sequences");
+                if *op_index != 0 {
+                    ctx.obs("end.op_index");
+                }
+                in_seq = false;
+                rows_in_seq = 0;
+            }
+        }
+    }
+}
+
+fn rand_stream(ctx: &mut Ctx, stream: &str, n: u64) {
+    for i in 0..n {
+        if !ctx.want(stream, i) {
+            continue;
+        }
+        let mut r = ctx.rng(stream, i);
+        let enc = Enc::nth(i);
+        let big = r.chance(1, 4);
+        if big && enc.addr == 8 {
+            ctx.obs("advance.big");
+        }
+        let s = gen_spec(&mut r, enc, big);
+        let mode = match r.below(8) {
+            0..=2 => Mode::Standalone,
+            3 | 4 => Mode::Second,
+            5 | 6 => Mode::Unit,
+            _ => Mode::DwarfPrograms,
+        };
+        // write::Dwarf units need version-compatible line programs: same encoding is used
+        obs_spec(ctx, &s, mode);
+        if run_spec(ctx, stream, &s, mode, true) && s.acts.iter().any(|a| matches!(a, Act::Row(_))) {
+            ctx.nontrivial(crate::rt::fnv(format!("{s:?}{mode:?}").as_bytes()));
+        }
+        if i < 48 && s.acts.len() > 4 {
+            let sj = spec_json(&s, mode);
+            let rows = expected_rows(&s);
+            ctx.sample(stream, || json!({"spec": sj, "expected_rows": format!("{:?}", rows.iter().take(4).collect::<Vec<_>>())}));
+        }
+    }
+}
+
+fn grid(ctx: &mut Ctx) {
+    let quick = ctx.quick();
+    let (lmax, amax): (i64, u64) = if quick { (40, 300) } else { (300, 600) };
+    let (lmax, amax) = if ctx.dbg() { (lmax.min(if quick { 12 } else { 60 }), amax) } else { (lmax, amax) };
+    let pairs = valid_pairs();
+    let ntuples: u64 = if quick { 12 } else { 48 };
+    let combos: [(u8, u8); 9] = [(1, 1), (2, 1), (4, 1), (1, 2), (1, 4), (2, 2), (4, 4), (2, 4), (4, 2)];
+    let nl = (2 * lmax + 1) as u64;
+    for t in 0..ntuples {
+        // rotate through the (line_base, line_range) pairs by seed so that successive seeds
+        // cover all 24 pairs in the quick tier as well
+        let pi = (t + ctx.seed * ntuples) % pairs.len() as u64;
+        let (line_base, line_range) = pairs[pi as usize];
+        let (min, max_ops) = combos[((t + ctx.seed + pi / 3) % 9) as usize];
+        let version = if max_ops > 1 { 4 + (t % 2) as u16 } else { 2 + (t % 4) as u16 };
+        let enc = Enc::new(t % 2 == 0, t % 3 == 0, version, if t % 4 == 1 { 4 } else { 8 });
+        for li in 0..nl {
+            let idx = t * nl + li;
+            if !ctx.want("grid", idx) {
+                continue;
+            }
+            let la = li as i64 - lmax;
+            let le = LineEncoding { minimum_instruction_length: min, maximum_operations_per_instruction: max_ops, default_is_stmt: t % 2 == 1, line_base, line_range };
+            let mut s = Spec {
+                enc,
+                le,
+                dir_form: SForm::Inline,
+                file_form: SForm::Inline,
+                src_form: SForm::Inline,
+                working_dir: b"/w".to_vec(),
+                source_dir: None,
+                source_file: b"f.c".to_vec(),
+                source_info: None,
+                has: (false, false, false, false),
+                adds: vec![Add::File(b"g.c".to_vec(), 0, None)],
+                acts: vec![],
+            };
+            let base_line = 1000u64;
+            for a in 0..=amax {
+                let b = if a % 2 == 0 { 0 } else { max_ops as u64 - 1 };
+                let tot = b + a;
+                let base_row = GRow { off: 0, op_index: b, file: 0, line: base_line, is_stmt: le.default_is_stmt, ..GRow::default() };
+                let adv_row = GRow { off: (tot / max_ops as u64) * min as u64, op_index: tot % max_ops as u64, line: (base_line as i64 + la) as u64, ..base_row };
+                s.acts.push(Act::SetAddress(0x1000 + a * 8));
+                s.acts.push(Act::Row(base_row));
+                s.acts.push(Act::Row(adv_row));
+                s.acts.push(Act::End { off: adv_row.off, op_index: adv_row.op_index });
+            }
+            ctx.obs_n("grid.pairs", amax + 1);
+            ctx.obs(&format!("version.{}", version));
+            if line_range >= 128 {
+                ctx.obs("line_range.ge128");
+            }
+            if max_ops > 1 {
+                ctx.obs("max_ops.gt1");
+                ctx.obs("op_index.nonzero");
+            }
+            if run_spec(ctx, "grid", &s, Mode::Standalone, false) {
+                ctx.counted_distinct += amax + 1;
+                ctx.evals(amax);
+            }
+            if li == 0 && t < 2 {
+                ctx.sample("grid", || json!({"enc": enc.label(), "line_encoding": format!("{le:?}"), "line_advance": la, "operation_advances": format!("0..={amax}")}));
+            }
+        }
+    }
+}
+
+/// Configurations the writer cannot represent: it must refuse them (Err), not emit a
+/// program that reads back differently.
+fn reject(ctx: &mut Ctx) {
+    let n = ctx.size(400, 4000, 4);
+    for i in 0..n {
+        if !ctx.want("reject", i) {
+            continue;
+        }
+        let mut r = ctx.rng("reject", i);
+        let mut enc = Enc::nth(i);
+        let kind = i % 2;
+        // the version is fixed before the case is generated so that table slots are consistent
+        enc.version = if kind == 0 { 2 + (i / 2 % 2) as u16 } else { 2 + (i / 2 % 3) as u16 };
+        let mut s = gen_spec(&mut r, enc, false);
+        for a in s.acts.iter_mut() {
+            match a {
+                Act::Row(g) => g.op_index = 0,
+                Act::End { op_index, .. } => *op_index = 0,
+                _ => {}
+            }
+        }
+        let expect = if kind == 0 {
+            // max_ops > 1 needs the version 4 header field
+            s.le.maximum_operations_per_instruction = 2 + r.below(6) as u8;
+            ctx.obs("reject.need_version4");
+            "NeedVersion(4)"
+        } else {
+            s.le.maximum_operations_per_instruction = 1;
+            s.file_form = if r.bool() { SForm::LineStrp } else { SForm::Strp };
+            ctx.obs("reject.need_version5");
+            "NeedVersion(5)"
+        };
+        ctx.eval();
+        let input = || spec_json(&s, Mode::Standalone);
+        let Some(o) = ctx.guard("write.reject", &input, || write_case(&s, Mode::Standalone)) else { continue };
+        match &o.write {
+            // before version 5 the string is written with DW_FORM_string, so a reference is
+            // refused either as a form mismatch or as needing version 5
+            Some(e) if e.contains(expect) || (kind == 1 && e.contains("LineStringFormMismatch")) => {}
+            other => ctx.fail(&format!("reject.{expect}"), &format!("expected Err({expect}), writer returned {other:?}"), &input),
+        }
+        ctx.counted_distinct += 1;
+    }
+}
+
+pub fn run(ctx: &mut Ctx) {
+    grid(ctx);
+    let n = ctx.size(40_000, 600_000, 10);
+    rand_stream(ctx, "rand", n);
+    reject(ctx);
+}
